@@ -1630,6 +1630,41 @@ func ruleRT1(c *Ctx) *rule {
 		viaCommands := ""
 		if okCall == nil && full {
 			viaCommands = c.failsOnFirstBadCommand(fi, loop, elem)
+			if viaCommands != "" {
+				// or: an unconditional search of the result's commands for one that is not Ok, whose "found" side ends in an error
+				for _, b := range f.Blocks {
+					iff, isIf := lastInstr(b).(*ssa.If)
+					if !isIf || !loop.body[b] {
+						continue
+					}
+					cond, _ := normCond(iff.Cond, true)
+					coll, pred, _, isSearch := searchTest(cond, true)
+					if !isSearch || !isNotOkPredicate(pred) {
+						continue
+					}
+					cs := c.newSlicer()
+					cs.depth = 0
+					if !cs.run(coll).hasField("task.Result.CommandResults") {
+						continue
+					}
+					uncond := true
+					for _, g := range fi.necessaryGuards(b) {
+						if loop.body[g.e.from] && g.e.from != loop.header {
+							uncond = false
+						}
+					}
+					if !uncond {
+						continue
+					}
+					for idx := 0; idx < 2; idx++ {
+						if _, _, found, _ := searchTest(cond, idx == 0); found {
+							if ends, _ := c.edgeEndsInError(edge{b, idx}); ends {
+								viaCommands = ""
+							}
+						}
+					}
+				}
+			}
 		}
 		switch {
 		case !full:
